@@ -217,10 +217,24 @@ def positions_frames(f, adt):
     rp = f.one(self_adt=adt, name='relative_positions')
     if cp is None or rp is None:
         return ['cartesian_positions / relative_positions not found for %s' % adt]
+    def relative_chain_problem(t, src, chain):
+        names = [c[0] for c in chain]
+        if names[:1] != ['flat_map'] or any(x not in ('flat_map', 'iter', 'deref', 'into_iter') for x in names) or \
+                not (src['o'] == 'arg' and field_path(src['p']) == ['occupied_sites']):
+            return 'relative_positions is not occupied_sites.iter().flat_map(..): %s' % names
+        fn = t.origin(chain[0][1]['args'][1])
+        nm = (fn.get('c', {}).get('fn') or '') if fn['o'] == 'const' else ''
+        if not nm.replace('packing::', '').endswith('OccupiedSite::positions'):
+            return 'relative_positions does not flat_map OccupiedSite::positions'
+        return None
+
     t = Tracer(cp)
     src, chain = adaptor_chain(t, {'k': 'copy', 'l': 0, 'p': []})
     names = [c[0] for c in chain]
-    if names != ['map'] or not (src['o'] == 'call' and (callee_name(src['term']) or '').endswith('relative_positions')):
+    # relative_positions().map(..), or the same sequence spelled out (a shared helper spliced into both accessors)
+    via_call = names == ['map'] and src['o'] == 'call' and (callee_name(src['term']) or '').endswith('relative_positions')
+    spelled = names[:1] == ['map'] and len(names) > 1 and relative_chain_problem(t, src, chain[1:]) is None
+    if not (via_call or spelled):
         probs.append('cartesian_positions is not relative_positions().map(..): %s' % names)
     else:
         co = t.origin(chain[0][1]['args'][1])
@@ -231,18 +245,20 @@ def positions_frames(f, adt):
             calls = list(cb.calls())
             if len(calls) == 1 and call_matches(calls[0][1], 'Cell2::to_cartesian_isometry') and calls[0][1]['dest']['l'] == 0:
                 a0, a1 = tc.origin(calls[0][1]['args'][0]), tc.origin(calls[0][1]['args'][1])
-                ok = field_path(a0.get('p', []))[-1:] == ['cell'] and a1['o'] == 'arg' and a1['l'] == 2
+                recv = field_path(a0.get('p', []))[-1:] == ['cell']
+                if not recv and a0['o'] == 'arg' and a0['l'] == 1:
+                    # the closure captured `&self.cell` itself (a helper taking the cell by reference, spliced in)
+                    fi = [e['f'] for e in a0.get('p', []) if isinstance(e, dict) and 'f' in e]
+                    ops = co['rv'].get('ops') or []
+                    if len(fi) == 1 and fi[0] < len(ops) and 'l' in ops[fi[0]]:
+                        oo = t.origin(ops[fi[0]])
+                        recv = oo['o'] == 'arg' and oo['l'] == 1 and field_path(oo.get('p', [])) == ['cell']
+                ok = recv and a1['o'] == 'arg' and a1['l'] == 2
         if not ok:
             probs.append('cartesian_positions does not map each relative position through self.cell.to_cartesian_isometry')
     t = Tracer(rp)
     src, chain = adaptor_chain(t, {'k': 'copy', 'l': 0, 'p': []})
-    names = [c[0] for c in chain]
-    if names[:1] != ['flat_map'] or any(x not in ('flat_map', 'iter', 'deref', 'into_iter') for x in names) or \
-            not (src['o'] == 'arg' and field_path(src['p']) == ['occupied_sites']):
-        probs.append('relative_positions is not occupied_sites.iter().flat_map(..): %s' % names)
-    else:
-        fn = t.origin(chain[0][1]['args'][1])
-        nm = (fn.get('c', {}).get('fn') or '') if fn['o'] == 'const' else ''
-        if not nm.replace('packing::', '').endswith('OccupiedSite::positions'):
-            probs.append('relative_positions does not flat_map OccupiedSite::positions')
+    pr = relative_chain_problem(t, src, chain)
+    if pr:
+        probs.append(pr)
     return probs
